@@ -34,20 +34,27 @@ ACCEPTED SUBSET (anything else: the function is NOT emitted, the reason is writt
 generated file, exit code stays 0, and every tie theorem that mentions it stops compiling — never a guess):
 
   statements   x = e | x, y = e (tuple) | x op= e | if/elif/else | return e | return | pass | docstring |
-               x.append(e) for a list x created in this function by list() / [] / [..] |
+               x.append(e) / x.remove(e) for a list x created in this function by list() / [] / [..] |
                x = C(a, ..) / x = <object-valued call> (LOCAL OBJECT, below) | x.attr = e | x.attr op= e |
-               print(...) (dropped; strings are opaque, below)
+               print(...) (dropped; strings are opaque, below) |
+               for i in range(a[, b[, step]]): … | for x in L: … (L a list variable the body does not modify) |
+               while c: … | while True: … | while 1: … | break | continue          (LOOPS, below)
   expressions  names, int / float / bool literals, unary - + not, + - * / on floats (int operands converted),
-               + - * // % on ints, ** and pow(x, y) with a float operand (uninterpreted `pow`), comparisons (chains of
-               two), and / or / & / | on bools, e1 if c else e2, L[k] (k a literal >= 0) on a list or a tuple, tuples,
-               list displays, math.sqrt/sin/cos/tan/atan/atan2/exp/log/floor and math.pi (uninterpreted parameters),
-               math.fabs, abs, min/max of two numbers (one a float), float(x), int(x) (uninterpreted `trunc` on a float),
-               x.is_integer(), declared attributes / accessors of object parameters, attributes of local objects,
-               module constants, calls of other whitelisted functions / methods of the same file.
-  NOT accepted loops, comprehensions, recursion, subscripts that are not literals, subscript assignment, try, with,
-               lambda, global, starred / keyword arguments, omitted (defaulted) arguments, truthiness of non-bools,
-               a name that may be unbound, a function that can fall off its end unless its return type is optional,
-               an object used as a plain value (alias, argument of an untranslated call), stores into a parameter.
+               + - * // % >> on ints, ** and pow(x, y) with a float operand (uninterpreted `pow`), comparisons (chains of
+               two), `x in L` / `x not in L` (x an int or a tuple of ints), and / or / & / | on bools, e1 if c else e2,
+               L[k] (k a literal >= 0) on a list or a tuple, L[e] (e any int expression) on a list, len(L), tuples,
+               list displays, math.sqrt/sin/cos/tan/atan/atan2/exp/log/floor and math.pi/inf/nan (uninterpreted parameters),
+               float("nan") / float("inf") / a literal that overflows such as 1e400 (parameters `nan`, `inf`),
+               math.fabs, abs, min/max of numbers (n-ary; CPython's "first among equals"), float(x), int(x) (uninterpreted
+               `trunc` on a float), x.is_integer(), declared attributes / accessors of object parameters, attributes of
+               local objects, module constants, class constants `C.NAME`, calls of other whitelisted functions / methods of
+               the same file, calls DECLARED to be the identity on a list (`assume_identity`, below).
+  NOT accepted comprehensions, recursion, slices, subscript assignment, try, with, lambda, global, for/while ... else, starred /
+               keyword arguments, omitted (defaulted) arguments except in a constructor call, truthiness of non-bools
+               (except `while 1`), a name that may be unbound unless it is DECLARED `unbound[τ]`, a function that can fall
+               off its end unless its return type is optional, an object used as a plain value (alias, argument of an
+               untranslated call), stores into a parameter's attributes, iteration over a list the body modifies, reading the
+               loop variable after its loop.
 
 TRANSLATION RULES (⟦·⟧ on statement lists gives a term of type `Py.M τ`):
   ⟦return e ; _⟧            = B(e, v => .ok v)                (statements after a return are unreachable)
@@ -63,14 +70,47 @@ TRANSLATION RULES (⟦·⟧ on statement lists gives a term of type `Py.M τ`):
   `/`, `//`, `%` by a non-zero numeric LITERAL (or a module constant defined as one) cannot raise and are
   rendered as the plain operation.
   MODULE CONSTANT: a name that is neither a parameter nor assigned in the function, bound exactly once at module level,
-  never declared `global`, whose defining expression is literal arithmetic: that expression is inlined (a rebinding of
-  the module attribute from outside the file at run time is not seen).
-  LOCAL OBJECT: `x = C(a, b, c)` for a class C of the same file whose `__init__` is exactly `self.p = p` for each
-  parameter (checked on the current source), or `x = <call returning object[C]>`: one Lean variable per attribute
-  (`x_p`); `x.p = e`, `x.p op= e`, `x.p`, `x.method()` (C.method translated, called with x's attributes) and `return x`
-  are accepted; any other use of `x` (alias, argument of an untranslated call) is refused, so no alias can exist.
+  never declared `global`, whose defining expression is literal arithmetic (or float("nan") / float("inf")): that expression is
+  inlined (a rebinding of the module attribute from outside the file at run time is not seen).
+  CLASS CONSTANT: `C.NAME` for a class C of the file, NAME bound exactly once in the class body to literal arithmetic or a list
+  display of literals, and never the target of an attribute store anywhere in the file: inlined likewise.
+  LOCAL OBJECT: `x = C(a, b, c)` for a class C of the same file whose `__init__` is exactly one `self.a = p` for each
+  parameter p, in any order (checked on the current source; it may be wrapped in `if isinstance(<first parameter>, str): …
+  else: <the stores>` — the string form of the constructor is never taken because only numeric arguments are accepted),
+  or `x = <call returning object[C]>`: one Lean variable per attribute (`x_a`), of type Int when the parameter is annotated
+  `int`, else float; omitted trailing arguments take the literal defaults of `__init__`; `x.p = e`, `x.p op= e`, `x.p`,
+  `x.method()` (C.method translated, called with x's attributes) and `return x` are accepted; any other use of `x` (alias,
+  argument of an untranslated call) is refused, so no alias can exist.
   STRINGS: `"…"`, `"…".format(…)`, `str(…)`, `+` of strings have the opaque type S; an S can only be bound to a local
   or passed to print; nothing is rendered for them and their sub-expressions are ASSUMED not to raise.
+
+LOOPS.  K, the CONTINUATION CONTEXT, says what `return v`, the end of the statement list, `break`, `continue` produce:
+    at function level           return v ↦ .ok v          end ↦ .ok none (optional return type only)      break/continue refused
+    in a loop body (state s)    return v ↦ .ok (.ret v)   end, continue ↦ .ok (.cont s)                   break ↦ .ok (.brk s)
+  LOOP STATE s of a loop = the tuple of the variables that its body (re)binds (assignment, augmented assignment, nested loop
+  targets, lists changed by .append/.remove, one entry per attribute of a local object whose attribute is stored) AND that are
+  bound before the loop, in the order in which they were first bound in the function; followed by the body-bound locals DECLARED
+  `unbound[τ]` in the signature (carried as `Option τ`, `none` until assigned; reading one is `Py.getBound`: UnboundLocalError).
+  A variable bound only inside the body and not declared is local to ONE iteration: reading it at the start of the next
+  iteration or after the loop is refused ("not bound on every path"). A state variable must have the same type at the end of the
+  body as at its start (declare `x: float` when `x = 0` is later added to floats).
+  ⟦for i in range(a, b): B ; rest⟧ = B(a, b, (va, vb) =>
+        Py.bind (Py.forList (fun i s => let x₁ := s.1; …; ⟦B⟧_loop) (Py.range va vb) (x₁, …)) fun r =>
+        match r with | .ret v => K.return v | .done s => let x₁ := s.1; …; ⟦rest⟧_K)
+    `range` is evaluated once, before the loop; `range(a, b, step)` is `Py.rangeStep` (ValueError on step 0);
+    `for x in L` passes the list itself. The loop variable is a parameter of the body; it is not readable after the loop.
+  ⟦while c: B ; rest⟧ = Py.bind (Py.whileLoop (fun s => let x₁ := s.1; …; B(c, v => if v then ⟦B⟧_loop else .ok (.brk s))) fuel (x₁, …)) …
+    with the same `match` after it. `fuel : Nat` is ONE extra parameter of the generated definition (placed after the
+    uninterpreted math functions), shared by all its while loops and passed on to translated callees that have one; running out
+    of fuel is `.error .fuel`, never a value. `while True:` / `while 1:` have no test.
+  ⟦if c: A else: B ; rest⟧ when A, B contain no return/break/continue, rest contains a loop, and every variable A, B bind is
+    already bound (or declared `unbound[τ]`): translated WITH A JOIN instead of duplicating rest —
+        Py.bind (if c then ⟦A⟧_join else ⟦B⟧_join) fun j => let x₁ := j.1; …; ⟦rest⟧_K      (⟦·⟧_join: end ↦ .ok (x₁, …))
+DECLARATIONS IN THE SIGNATURE (7th component, a dict, and the `locals` dict) — each is an ASSUMPTION to be read with the tie:
+  locals {"x": "float" | "int"}            type of a local bound to a bare integer literal (`somme = 0` later added to floats)
+  locals {"x": "list[float]"}              element type of a list created empty (`x = []`) and needed before its first append
+  locals {"x": "unbound[float]"}           x may be read before it is assigned (bound only in a branch / a loop body)
+  {"assume_identity": ["listify"]}         on a list argument the call returns the argument itself (tracklib's `listify`)
 """
 import argparse
 import ast
@@ -81,7 +121,7 @@ VERIF = os.path.dirname(os.path.dirname(os.path.abspath(__file__)))
 
 # --------------------------------------------------------------------------------------------------------
 # Declared signatures: the ONLY per-function input of the translator.
-#   (python file under tracklib/, qualified python name, lean name, {param: type}, return type, {local: type})
+#   (python file under tracklib/, qualified python name, lean name, {param: type}, return type, {local: type}[, {option: ...}])
 # The first parameter `self` of a method is not supported (only static methods / functions).
 # --------------------------------------------------------------------------------------------------------
 WHITELIST = [
